@@ -91,12 +91,12 @@ def compile_unit(unit, outdir, san, extra):
     return obj
 
 
-def build(prop_id, cfg, fuzz=False, variant=None):
+def build(prop_id, cfg, fuzz=False, variant=None, cov=False):
     """Compile everything the property needs from the current tree.
     variant: a dict from cfg["variants"] (own harness/units/sanitizer set, own executable)."""
     if variant:
         cfg = dict(cfg, **{k: v for k, v in variant.items() if k in ("harness", "units", "ldflags", "harness_flags")})
-    outdir = os.path.join(BUILD, prop_id, ("obj-" + variant["name"]) if variant else ("fuzz" if fuzz else "obj"))
+    outdir = os.path.join(BUILD, prop_id, ("obj-" + variant["name"]) if variant else ("fuzz" if fuzz else ("obj-cov" if cov else "obj")))
     shutil.rmtree(outdir, ignore_errors=True)
     os.makedirs(outdir, exist_ok=True)
     san = list(SAN) + cfg.get("san_extra", [])
@@ -107,6 +107,9 @@ def build(prop_id, cfg, fuzz=False, variant=None):
         san = ["-fsanitize=fuzzer-no-link,address,undefined",
                "-fno-sanitize-recover=undefined", "-fno-sanitize=function,vptr"] + cfg.get("san_extra", [])
         extra = ["-DVPBT_LIBFUZZER"]
+    if cov:
+        san = san + ["-fprofile-instr-generate", "-fcoverage-mapping"]
+        extra = ["-DVPBT_COVERAGE"]
     units = [{"src": "V:engine/vpbt_main.cpp", "no_repo_inc": True}]
     for h in cfg["harness"]:
         u = {"src": "V:" + h} if isinstance(h, str) else dict(h)
@@ -132,7 +135,7 @@ def build(prop_id, cfg, fuzz=False, variant=None):
         names = set()
         for line in r.stdout.splitlines():
             parts = line.split()
-            if len(parts) == 3 and parts[1] in "TWDBRVC" and not parts[2].startswith(("__asan", "__ubsan", "__odr", "asan.", "__sancov")):
+            if len(parts) == 3 and parts[1] in "TWDBRVC" and not parts[2].startswith(("__asan", "__ubsan", "__odr", "asan.", "__sancov", "__llvm", "__prof", "__covrec")):
                 names.add(parts[2])
         mapf = os.path.join(outdir, "redefine-%s.txt" % prefix)
         with open(mapf, "w") as f:
@@ -142,8 +145,10 @@ def build(prop_id, cfg, fuzz=False, variant=None):
             r = sh(["objcopy", "--redefine-syms=" + mapf, o])
             if r.returncode != 0:
                 raise BuildError("objcopy failed on %s\n%s" % (o, r.stdout))
-    exe = os.path.join(BUILD, prop_id, ("harness-" + variant["name"]) if variant else ("fuzzer" if fuzz else "harness"))
+    exe = os.path.join(BUILD, prop_id, ("harness-" + variant["name"]) if variant else ("fuzzer" if fuzz else ("harness-cov" if cov else "harness")))
     link_san = ["-fsanitize=fuzzer,address,undefined"] if fuzz else SAN[:1]
+    if cov:
+        link_san = link_san + ["-fprofile-instr-generate"]
     if variant and variant.get("san"):
         link_san = [x for x in variant["san"] if x.startswith("-fsanitize=")]
     link = [CXX] + link_san + objs + \
@@ -489,6 +494,74 @@ def check_property(prop_id, tier, seed, props):
     return 0
 
 
+def coverage(prop_id, props, seed):
+    """Measurement, not a check: line/function coverage of the property's anchored files reached by
+    the quick tier's generators (at 1/10 of the quick case count), from a separate
+    -fprofile-instr-generate build of the same harness. Writes build/<ID>/coverage.txt and prints it."""
+    if prop_id not in props:
+        print("usage: check coverage <ID>")
+        return 2
+    cfg = props[prop_id]
+    exe = build(prop_id, cfg, cov=True)
+    covdir = os.path.join(BUILD, prop_id, "cov")
+    shutil.rmtree(covdir, ignore_errors=True)
+    os.makedirs(covdir)
+    outdir = os.path.join(BUILD, prop_id, "run-cov")
+    shutil.rmtree(outdir, ignore_errors=True)
+    os.makedirs(outdir)
+    os.environ["VPBT_COV_DIR"] = covdir
+    for tgt in cfg["targets"]:
+        t = dict(tgt)
+        if t.get("mode", "random") == "random":
+            t["quick"] = max(2000, int(t["quick"]) // 10)
+        else:
+            t["enum_limit_quick"] = min(int(t.get("enum_limit_quick") or 200000), 200000)
+        res = run_target(exe, prop_id, t, "quick", seed, [], outdir, os.path.join(outdir, "replays"))
+        log("coverage run %s: %d evaluations" % (t["name"], res.get("evaluations", 0)))
+    prof = os.path.join(covdir, "merged.profdata")
+    raws = glob.glob(os.path.join(covdir, "*.profraw"))
+    if not raws:
+        print("no profiles written")
+        return 2
+    r = sh(["llvm-profdata", "merge", "-sparse", "-o", prof] + raws)
+    if r.returncode != 0:
+        print(r.stdout)
+        return 2
+    for x in raws:
+        os.unlink(x)
+    anchors = []
+    for line in open(os.path.join(VERIF, "properties.jsonl")):
+        rec = json.loads(line)
+        if rec["id"] == prop_id:
+            anchors = rec["anchors"].get("files", [])
+    files = [os.path.join(REPO, a) for a in anchors if os.path.exists(os.path.join(REPO, a))]
+    rep = sh(["llvm-cov", "report", exe, "-instr-profile=" + prof] + files).stdout
+    # functions of the anchored files that were never entered
+    fn = sh(["llvm-cov", "report", exe, "-instr-profile=" + prof, "-show-functions", "-Xdemangler=c++filt"] + files).stdout
+    never = []
+    cur = ""
+    for line in fn.splitlines():
+        if line.startswith("File '"):
+            cur = line[6:].rstrip("':")
+            continue
+        parts = line.split()
+        if len(parts) >= 7 and parts[-1].endswith("%") and parts[-2].isdigit():
+            # name regions miss cover lines miss cover ...
+            name = " ".join(parts[:-6]) if len(parts) > 7 else parts[0]
+            try:
+                lines_total, lines_miss = int(parts[-3]), int(parts[-2])
+            except ValueError:
+                continue
+            if lines_total and lines_miss == lines_total and name != "TOTAL":
+                never.append("%s: %s" % (os.path.relpath(cur, REPO), name))
+    text = rep + "\nfunctions of the anchored files never entered by the generators (%d):\n" % len(never) + "\n".join(sorted(set(never))) + "\n"
+    with open(os.path.join(BUILD, prop_id, "coverage.txt"), "w") as f:
+        f.write(text)
+    print(text)
+    return 0
+
+
+
 def main(argv):
     import props as propmod
     props = propmod.PROPS
@@ -510,7 +583,7 @@ def main(argv):
         elif argv[i] == "--replay":
             replay = argv[i + 1]
             i += 2
-        elif what == "selftest" and i == 1:
+        elif what in ("selftest", "coverage") and i == 1:
             i += 1  # optional property id
         else:
             print("unknown argument", argv[i])
@@ -559,6 +632,8 @@ def main(argv):
                 subprocess.call(["git", "-C", "/repo", "worktree", "remove", "--force", w])
         print("selftest: %d seeded changes, %d caught, %d missed %s" % (total, total - len(missed), len(missed), missed))
         return 1 if missed else 0
+    if what == "coverage":
+        return coverage(argv[1] if len(argv) > 1 else "", props, seed)
     if what == "all":
         rc = 0
         for pid in sorted(props):
